@@ -209,6 +209,19 @@ def run(ctx):
             if not ok: viol(f'C01:frob:{tag}', 'Frobenius norm differs from root-sum-of-squares', A, None, fv, f'sqrt({f2})')
         if fd != fs: viol('C01:frob:storage', 'dense and sparse Frobenius norms differ on integer data', A, None, (fd, fs), 'equal')
         if float(utils.quat_frobenius_norm(utils.quat_hermitian(An))) != fd: viol('C01:frob:herm', '||A^H|| != ||A||', A, None, '', '')
+        # the component-form norm on every scipy.sparse container of the planes, including those whose raw data buffer is NOT one value per entry:
+        # COO with repeated coordinates (each entry stored as two pieces), DIA (padding slots), BSR, LIL, DOK
+        from scipy import sparse as _sp
+        planes = [np.array(c, dtype=float).reshape(len(A), len(A[0])) for c in qx.comps(A)]
+        def _coo_dup(P):
+            r, c = np.nonzero(P); v = P[r, c]
+            return _sp.coo_matrix((np.concatenate([v - 1.0, np.ones_like(v)]), (np.concatenate([r, r]), np.concatenate([c, c]))), shape=P.shape)
+        for fmt, mk in (('csr', _sp.csr_matrix), ('csc', _sp.csc_matrix), ('coo-duplicates', _coo_dup), ('dia', _sp.dia_matrix), ('lil', _sp.lil_matrix), ('bsr', _sp.bsr_matrix)):
+            try: fc = float(utils.normQsparse(*[mk(P) for P in planes]))
+            except Exception as e: viol(f'C01:frob:components:{fmt}:raises', f'normQsparse raised {e!r} for {fmt} component planes', A, None, '', ''); continue
+            if abs(fc - fd) > 4e-15 * max(fd, 1.0): viol(f'C01:frob:components:{fmt}', f'component-form Frobenius norm of {fmt} planes differs from the dense norm', A, None, (fc, fd), 'equal')
+        fcd = float(utils.normQsparse(*planes))
+        if abs(fcd - fd) > 4e-15 * max(fd, 1.0): viol('C01:frob:components:dense', 'component-form Frobenius norm of dense planes differs from the quaternion-array norm', A, None, (fcd, fd), 'equal')
         U = qx.signed_perm(rng, m); V = qx.signed_perm(rng, k)
         fu = float(utils.quat_frobenius_norm(utils.quat_matmat(qx.to_np(U), An)))
         fv_ = float(utils.quat_frobenius_norm(utils.quat_matmat(An, qx.to_np(V))))
